@@ -104,6 +104,24 @@ def main (args : List String) : IO UInt32 := do
     for e in stats do out.putStrLn e
     out.putStrLn "END"
     pure 0
+  | ["l2probe", mode, fam, idx] =>
+    -- one program for the case `<fam>/<idx>` of the exhaustive matrix: `mode` = law (lawful environment) | cmp
+    let masks := if fam == "cmp1all" then (List.range 31).map (· + 1) else [31]
+    let lawful := mode == "law"
+    let (c, traits) := probeCase lawful masks idx.toNat!
+    let (body, exp) := probeProgram lawful c traits "c0"
+    let out ← IO.getStdout
+    out.putStrLn "PROGRAM"
+    out.putStr (if lawful then l2PreludeLawful else l2Prelude)
+    out.putStr body
+    out.putStrLn "fn main() { c0::run(); }"
+    out.putStrLn "EXPECT"
+    for e in exp do out.putStrLn e
+    out.putStrLn "STATS"
+    out.putStrLn s!"ACCEPTED {caseAccepted c}"
+    out.putStrLn (s!"SRC c0 {rustItem c}".replace "\n" " ")
+    out.putStrLn "END"
+    pure 0
   | _ =>
     IO.eprintln "usage: drv gen <family> <seed> <from> <count> | drv count <family>"
     pure 2
